@@ -48,6 +48,7 @@ type c04Case struct {
 	Entry string    `json:"entry"` // str | file | vue
 	Top   bool      `json:"top,omitempty"`
 	Loops []c04Loop `json:"loops"`
+	Text  *c04Text  `json:"text,omitempty"` // text part (c04_text.go)
 }
 
 // c04Root is the struct form of the root data.
@@ -1625,10 +1626,13 @@ func (p *c04) sizes(ctx core.Ctx) (nD1, nGrid2, nNest, nNon int) {
 
 func (p *c04) Plan(ctx core.Ctx) int {
 	a, b, c, d := p.sizes(ctx)
-	return a + b + c + d
+	return a + b + c + d + c04NText()
 }
 
 func (p *c04) Gen(ctx core.Ctx, i int) any {
+	if a, b, c, d := p.sizes(ctx); i >= a+b+c+d {
+		return c04BuildText(i - (a + b + c + d))
+	}
 	nD1, nGrid2, nNest, _ := p.sizes(ctx)
 	r := core.NewRNG(ctx.Seed, uint64(i), 0xC04)
 	base := c04Case{Entry: core.Pick(r, c04Entries), Top: r.Chance(1, 4)}
@@ -1820,6 +1824,10 @@ func c04Render(c c04Case, tpl string, data any) (string, error) {
 func (p *c04) Exec(ctx core.Ctx, cc any) core.Obs {
 	c := cc.(c04Case)
 	var o core.Obs
+	if c.Part == "text" && c.Text != nil {
+		c04ExecText(c, &o)
+		return o
+	}
 	if c.Part == "nonseq" {
 		return p.execNonSeq(c)
 	}
